@@ -149,7 +149,7 @@ theorem load_linear_shape (rs : Repo) (b : Branch) (depth : Int) (g : Hdr)
       | .ok r3 => (r3, none) := by
   obtain ⟨l, hlast⟩ := loadedRoot_last b depth hne hph hoff hd
   have hbofph : (branchOfFile (rootFile b)).parentHeight = -1 := hph
-  unfold load
+  unfold load loadFinish
   simp only [freshRepo, hidx, List.isEmpty_cons, Bool.false_eq_true, ↓reduceIte, loadRead, hbrs, List.lookup, BEq.rfl,
     List.nil_append, List.head?_cons, List.length_cons, List.length_nil, List.map_cons, List.map_nil]
   have hkeep0 : decide ((branchOfFile (rootFile b)).height ≥ (branchOfFile (rootFile b)).height - depth) = true := by
